@@ -42,11 +42,11 @@ RULE = (
     "encoded data and leave tell() at the encoder's next offset.  op4_cutover / op2_cutover "
     "(enumerated): strings and record parts of 2999 / 3000 / 3001 numbers for every precision x key "
     "width x byte order x layout / record form (the struct.unpack / numpy.fromfile switch).  Three "
-    "input classes on which the readers deviate from their documentation are isolated in their own "
-    "parts and excluded from (tolerated in) the parts above: op4_sparse_f32 (sparse-mode read of a "
-    "4-byte single precision matrix whose strings all have >= 3000 numbers must still be double "
-    "precision), op2_uint64 (rdop2record('uint') of a 64-bit file with a word >= 2**63), op2_nbytes "
-    "(directory().nbytes = bytes the data block occupies).  Non-trivial: some matrix has >= 2 stored "
+    "input classes on which the readers deviated from their documentation (fixed: F31-F33) keep "
+    "deterministic parts of their own and are also generated in the parts above: op4_sparse_f32 "
+    "(sparse-mode read of a 4-byte single precision matrix whose strings all have >= 3000 numbers must "
+    "still be double precision), op2_uint64 (rdop2record('uint') of a 64-bit file with a word >= 2**63), "
+    "op2_nbytes (directory().nbytes = bytes the data block occupies).  Non-trivial: some matrix has >= 2 stored "
     "columns or >= 2 strings in a column, or some record has >= 2 parts."
 )
 ASSUME = [
@@ -246,23 +246,14 @@ def oracle_op4(case, R):
     if any(k >= 2 for k in nstr):
         R.label("multi-string")
 
-    # input class isolated in part "op4_sparse_f32": every stored string of a single
-    # precision matrix (4-byte reals) goes through the numpy.fromfile path
-    f32class = [binary and not enc.get("bit64") and bool(m["mtype"] & 1) and len(m["columns"]) > 0
-                and all(len(v) * (2 if m["mtype"] > 2 else 1) >= 3000 for _, ss in m["columns"] for _, v in ss)
-                for m in mats]
-
     def same(got, ref, tag, k):
         if sp.issparse(got):
             ok_shape = got.shape == ref.shape
             got = np.asarray(got.toarray())
-            if f32class[k] and got.dtype != ref.dtype:
-                if case.get("isolate_f32"):
-                    R.fail("sparse_read_not_double_precision",
-                           f"{tag} read of matrix {k} ({mats[k]['layout']}, mtype {mtypes[k]}) returned dtype "
-                           f"{got.dtype}; the module reads all matrices in as double precision ({ref.dtype})")
-                else:
-                    R.label("sparse_f32_class_tolerated")
+            if got.dtype != ref.dtype and np.any(ref):
+                R.fail("sparse_read_not_double_precision",
+                       f"{tag} read of matrix {k} ({mats[k]['layout']}, mtype {mtypes[k]}) returned dtype "
+                       f"{got.dtype}; the module reads all matrices in as double precision ({ref.dtype})")
                 got = got.astype(ref.dtype)
             if got.dtype != ref.dtype and not np.any(ref):
                 # no stored entry: a sparse result cannot carry the complex dtype
@@ -435,7 +426,7 @@ def op2_block(spec, enc):
             esz = W
         elif dt == "uint":
             info = np.iinfo(np.uint64 if bit64 else np.uint32)
-            top = info.max if (not bit64 or spec.get("uint64_topbit")) else 2 ** 63 - 1
+            top = info.max
             data = rng.integers(0, top, n, dtype=info.dtype, endpoint=True)
             if spec.get("uint64_topbit"):
                 data[0] = 2 ** 63 + 5
@@ -519,11 +510,11 @@ def oracle_op2(case, R, only_nbytes=False):
     try:
         with o:
             dl = o.dblist
+            for s, bi in zip(dl, bis):
+                R.check(s.nbytes == bi["stop"] - bi["start"], "nbytes_not_bytes_consumed",
+                        f"{s.name}: nbytes={s.nbytes} but the data block occupies bytes "
+                        f"[{bi['start']}, {bi['stop']}) = {bi['stop'] - bi['start']} bytes")
             if only_nbytes:
-                for s, bi in zip(dl, bis):
-                    R.check(s.nbytes == bi["stop"] - bi["start"], "nbytes_not_bytes_consumed",
-                            f"{s.name}: nbytes={s.nbytes} but the data block occupies bytes "
-                            f"[{bi['start']}, {bi['stop']}) = {bi['stop'] - bi['start']} bytes")
                 return
             # ---------------- directory
             hdr = enc.get("header")
@@ -643,10 +634,8 @@ def oracle_op2(case, R, only_nbytes=False):
                         own = form == r["dtype"] or (form is None and r["dtype"] == "int")
                         if not own and form != "bytes" and (j + k + case.get("salt", 0)) % 3:
                             continue                      # foreign forms on a third of the records
-                        if form == "uint" and W == 8 and not case.get("uint64_topbit") and \
-                                bool(np.any(np.frombuffer(raw, dtype=f"{e}i8") < 0)):
-                            R.label("uint64_topbit_skipped")   # isolated in part op2_uint64
-                            continue
+                        if form == "uint" and W == 8 and bool(np.any(np.frombuffer(raw, dtype=f"{e}i8") < 0)):
+                            R.label("uint64_topbit")
                         for N in ((0,) if form == "bytes" else (0, len(raw) // bp)):
                             o.set_position(ri["start"])
                             got = o.rdop2record(form, N) if form else o.rdop2record(N=N)
